@@ -301,3 +301,118 @@ func VerifC06_ControlWaitVT() {
 func vsymChooseState() ConnState {
 	return []ConnState{NotSelectedState, SelectedState}[vsymChoose(2)]
 }
+
+// VerifC06_RaceVT: timing of the peer's answer, of a disconnect and of the caller's cancellation
+// relative to the send itself. A W-bit send runs in its own goroutine; a second goroutine performs
+// one or two events back to back {matching reply, reject, generation end, caller cancel} at an
+// arbitrary instant: ONE preemption is placed before each call instruction the sender executes
+// (from its first instruction: before the transaction is registered, between registration and the
+// write, after the write, inside the wait), or the events happen when the sender first blocks.
+// Whatever the instant: the send returns exactly one documented outcome, never (nil, nil); a reply
+// reaches exactly one recipient (the sender, or the handlers once when it arrived before the
+// transaction existed); the transaction is deregistered; the in-flight gauge is back to zero.
+func VerifC06_RaceVT() {
+	vsymExpect("got-reply")
+	vsymExpect("got-t3")
+	vsymExpect("got-closed")
+	vsymExpect("got-cancel")
+	vsymExpect("got-reject")
+	K := 160
+	v := newVConnection(SelectedState)
+	ctx, cancel := context.WithCancel(context.Background())
+	defer cancel()
+	fn := vsymU8() | 1
+	stream := vsymU8() & 0x7F
+	reason := vsymU8()
+	// the system bytes the library will draw for this send
+	var sys [4]byte
+	nx := v.c.sysGen.n.Load() + 1
+	sys[0], sys[1], sys[2], sys[3] = byte(nx>>24), byte(nx>>16), byte(nx>>8), byte(nx)
+	ev1 := vsymChoose(4)     // 0 reply, 1 reject, 2 generation end, 3 cancel
+	ev2 := vsymChoose(5) - 1 // -1 none, else a second event right behind the first
+	vsymAssume(ev2 != ev1)
+	k := vsymChoose(K)
+	before := v.snap()
+	answeredAfterWrite := false // the peer's answer was delivered after the primary was on the wire
+	do := func(e int) {
+		switch e {
+		case 0:
+			answeredAfterWrite = len(v.tr.writes) > 0
+			_ = v.c.DeliverOwnedFrame(dataFrame(0xFFFF, stream, fn+1, sys, secs2.U1(7).ToBytes()))
+		case 1:
+			answeredAfterWrite = len(v.tr.writes) > 0
+			v.c.RouteReply(NewRejectReqRaw(0xFFFF, 0, 0, sys, reason))
+		case 2:
+			v.e.cancel()
+			v.e.closeSocket()
+		case 3:
+			cancel()
+		}
+	}
+	var reply *DataMessage
+	var err error
+	done := make(chan int, 2)
+	vsymPreemptAt(k)
+	go func() {
+		reply, err = v.c.SendDataMessage(ctx, stream, fn, true, secs2.A("p"))
+		done <- 0
+	}()
+	go func() {
+		do(ev1)
+		if ev2 >= 0 {
+			do(ev2)
+		}
+		done <- 1
+	}()
+	<-done
+	<-done
+	vsymPreemptAt(-1)
+	vsymPreemptCovered(K)
+	after := v.snap()
+	has := func(e int) bool { return ev1 == e || ev2 == e }
+	vsymAssert((reply == nil) != (err == nil), "exactly-one-of-reply-and-error")
+	vsymAssert(v.e.replies.len() == 0, "transaction-deregistered-on-every-exit")
+	vsymAssert(after.inflight == 0 && before.inflight == 0, "inflight-gauge-back-to-zero")
+	var re *RejectError
+	switch {
+	case reply != nil:
+		vsymReach("got-reply")
+		vsymAssert(has(0), "a-reply-is-returned-only-if-the-peer-sent-one")
+		vsymAssert(reply.SystemBytes() == sys && reply.Function() == fn+1 && !reply.WaitBit(), "reply-is-own-secondary")
+		vsymAssert(len(v.got) == 0, "reply-reached-the-sender-only")
+	case errors.As(err, &re):
+		vsymReach("got-reject")
+		vsymAssert(has(1) && re.Reason == reason, "reject-error-only-from-the-peers-reject")
+	case errors.Is(err, ErrT3Timeout):
+		vsymReach("got-t3")
+		// only possible when whatever the peer sent arrived before the transaction existed
+		vsymAssert(!has(2) && !has(3), "t3-only-when-neither-disconnect-nor-cancel-happened")
+		if has(0) {
+			vsymAssert(len(v.got) == 1, "early-reply-went-to-the-handlers-exactly-once")
+		}
+	case errors.Is(err, context.Canceled):
+		vsymReach("got-cancel")
+		vsymAssert(has(3), "cancel-error-only-if-the-caller-cancelled")
+	case errors.Is(err, ErrConnClosed) || errors.Is(err, ErrNotSelectedState) || errors.Is(err, ErrNotOpen):
+		vsymReach("got-closed")
+		vsymAssert(has(2), "closed-error-only-if-the-generation-ended")
+	default:
+		vsymAssert(false, "error-is-one-of-the-documented-outcomes")
+	}
+	if has(0) {
+		got := len(v.got)
+		if reply != nil {
+			got++
+		}
+		vsymAssert(got <= 1, "reply-never-reaches-two-recipients")
+	}
+	// a peer can only answer what it has seen: an answer that arrives after the primary was written,
+	// with nothing else competing, is what the send returns
+	if ev2 < 0 && answeredAfterWrite {
+		if ev1 == 0 {
+			vsymAssert(reply != nil, "answer-after-the-write-always-reaches-the-sender")
+		} else if ev1 == 1 {
+			vsymAssert(re != nil, "reject-after-the-write-always-reaches-the-sender")
+		}
+	}
+}
